@@ -32,6 +32,7 @@ struct Case {
   coap_bin_const_t id_key;
   // client
   bool accept_hint = true;
+  bool refuse_only_announced_hints = false;
   coap_dtls_cpsk_info_t ih_info;
   Bytes cli_identity, cli_key;
   // observations
@@ -57,8 +58,10 @@ const coap_dtls_spsk_info_t *cb_sni(const char *sni, coap_session_t *, void *) {
   G->sni_info.key.length = it->second.second.size();
   return &G->sni_info;
 }
-const coap_dtls_cpsk_info_t *cb_ih(coap_str_const_t *, coap_session_t *, void *) {
-  if (!G->accept_hint) return nullptr;
+const coap_dtls_cpsk_info_t *cb_ih(coap_str_const_t *hint, coap_session_t *, void *) {
+  // a refusing client refuses either every hint, or every hint a server actually announces (all hints of this harness are non-empty)
+  // while it would go on without one ("no hint -> default identity", RFC 4279)
+  if (!G->accept_hint && !(G->refuse_only_announced_hints && (!hint || hint->length == 0))) return nullptr;
   G->ih_info.identity.s = G->cli_identity.data();
   G->ih_info.identity.length = G->cli_identity.size();
   G->ih_info.key.s = G->cli_key.data();
@@ -171,6 +174,8 @@ int verif_case(const uint8_t *tape, size_t tlen, Info *info) {
   bool warm_up = t.chance(90);
   bool use_ih_cb = t.chance(90);
   cs.accept_hint = !use_ih_cb || !t.chance(50);
+  cs.refuse_only_announced_hints = !cs.accept_hint && tlen > 0 && (tape[tlen - 1] & 1);   // (last tape byte: earlier tapes keep their plans)
+  if (cs.refuse_only_announced_hints) info->label("hint-policy:refuse-announced-accept-none");
   bool match = rel == 0 && !unknown_identity && !unknown_sni && cs.accept_hint && cs.cli_key == expected_key;
   if (unknown_identity || unknown_sni) match = false;
   // ---- requests, faults, injections ----
